@@ -22,6 +22,12 @@ THEOREMS = {
         "bfsTree_dist_eq",
         "normalize_iso",
         "segment_roundtrip",
+        "tsbfs_leaves_eq",
+        "tsdfs_leaves_eq",
+        "stateless_bfs_dist_eq",
+        "numEdges_eq",
+        "adjmap_numEdges_refuted",
+        "ts_numEdges_tombstone_refuted",
         "toSegment_panics",
         "toSegment_partial",
         "c14",
@@ -111,7 +117,8 @@ SPEC = {
     "lean_modules": ["Dawgs.Props.C14"],
     "theorems_by_module": THEOREMS,
     "gate_modules": ["Dawgs.Model.C14", "Dawgs.Spec.C14", "Dawgs.Proofs.C14", "Dawgs.Proofs.C14TS", "Dawgs.Proofs.C14Csr", "Dawgs.Proofs.C14Reach",
-                     "Dawgs.Proofs.C14Bfs", "Dawgs.Proofs.C14Norm", "Dawgs.Proofs.C14Seg", "Dawgs.Proofs.C14Glue", "Dawgs.Props.C14"],
+                     "Dawgs.Proofs.C14Bfs", "Dawgs.Proofs.C14Norm", "Dawgs.Proofs.C14Seg", "Dawgs.Proofs.C14Trav", "Dawgs.Proofs.C14TravInst", "Dawgs.Proofs.C14Edges",
+                     "Dawgs.Proofs.C14Glue", "Dawgs.Props.C14"],
     "suites": [{"name": "c14", "model_suite": "c14" if MODEL_MODE == "fixed" else "c14old", "monitor_suite": "c14mon",
                 "keep_prefix": 2, "shrink_budget": 60, "thorough_seeds": 1}],
     "nontrivial": nontrivial,
@@ -139,7 +146,10 @@ SPEC = {
     "assumptions": [
         "ids are < 2^64 (the Go code cannot represent others); the Lean theorems hold for all naturals",
         "EachAdjacentNode multiplicity is not part of the property: answers are compared as sets by the monitor and as exact callback sequences by the model tie",
-        "TSBFS/TSDFS: modelled and tied, judged by the monitor against the naive maximal-walk enumeration; no Lean theorem (covered by tie + monitor only)",
+        "TSDFS/TSBFS/TSStatelessBFS theorems need `Terminates` (maxDepth > 0, or a rank function certifying the filtered graph acyclic); an admitted cycle with maxDepth <= 0 is the documented non-termination of the real loops and is never generated",
+        "TSStatelessBFS weights: small integral float64 values in the tie (products exact), naturals in the model",
+        "Dimensions / Degrees: modelled, tied exactly and judged by the monitor (node count exact, largest row between the number of distinct neighbours and the number of incident edges, exact for the set-valued containers); no Lean theorem",
+        "a triple store carrying DeleteEdge tombstones: the store's own adjacency is proved (ts_adj_eq); its EachEdge/EachAdjacentEdge/NumEdges, its projections and traversals ignore the tombstones (known findings, stated precisely by proj_tombstone_partial, numEdges_eq, tsContainers)",
         "Reach/BFSTree theorems are stated for the queue loops with fuel NumNodes+1 (proved sufficient, reach_fuel_sufficient); the Go loops are unbounded",
         "BFSTreeFile.ReadEach is exercised only on files below one 4096-byte read buffer, where the current code deterministically yields no record",
     ],
@@ -173,8 +183,8 @@ MANIFEST = {
     "text": "Lean theorems over ALL build histories (arbitrary ids, self loops, parallel/antiparallel edges, isolated nodes): the adjacency map, the CSR "
             "digraph (offset invariant proved by induction over the builder and fill loops) and — for outbound/inbound — the triple store and every "
             "deleted-node/deleted-edge projection present exactly the edge list's adjacency sets and node count; Reach equals >=1-step reachability with "
-            "fuel |nodes|+1 proved sufficient; BFSTree reports every reachable node once with the length of a SHORTEST walk; Normalize is an isomorphism; segment marshalling round-trips. `C14_full` is the statement about the code as it is (F2 repaired by 789c790) and is proved (`c14`); the pre-repair "
+            "fuel |nodes|+1 proved sufficient; BFSTree reports every reachable node once with the length of a SHORTEST walk; Normalize is an isomorphism; segment marshalling round-trips; TSDFS/TSBFS/TSStatelessBFS hand their handler exactly the maximal filter-admitted walks (multiset equality with the naive enumeration, termination with an explicit fuel bound under maxDepth>0 or an acyclicity certificate); NumEdges of CSR / store / every projection equals the edge-list count. `C14_full` is the statement about the code as it is (F2 repaired by 789c790) and is proved (`c14`); the pre-repair "
             "definitions are kept only for the `_old` refutations. The models are transcriptions of container/*.go "
             "compared with the real code on exhaustive small graphs and random multigraphs every run, and the real answers are judged by the spec monitor.",
-    "note": "TSBFS/TSDFS and BFSTreeFile: tie + monitor only (no Lean theorem). Trusted: Lean kernel, roaring bitmaps, Go maps, deque, gzip.",
+    "note": "BFSTreeFile (gzip file round trip) and Dimensions: tie + monitor only (no Lean theorem). Trusted: Lean kernel, roaring bitmaps, Go maps, deque, gzip.",
 }
